@@ -93,3 +93,12 @@ def shrink(case):
         if rest:
             yield "%s %s" % (t[0], " ".join(" ".join(o) for o in rest))
 PREAMBLE = ["tables"]
+
+
+def pre_proof():
+    """The concrete instance (Model/ConnInst.v) uses the error->response table that the C20 translator
+    regenerates from the CURRENT source tree; regenerate it before building, so that a run against
+    another tree (VERIF_REPO) never leaves a stale table behind."""
+    import c20 as _c20
+    _c20.pre_proof()
+    return []
